@@ -12,6 +12,9 @@ PHRASES = ["zzcanary(1)", "'+zzcanary(1)+'", '"+zzcanary(1)+"', "\\'+zzcanary(1)
            'it\'s ""x""', '\'""+str (zzcanary(1))+""', 'say ""hi""', '""', 'a""b\'c', "it'*", "a?'b", "*'+zzcanary(1)+'*", "p*'+str(zzcanary(1))+'*", "?\\", "a*\\'", "x*\ny",
            "\\", "\\n", "it's", 'say "hi"', "x\ny", "#", "a?b", "~*", "__import__('os').system('true')", "');zzcanary(1);('", "\\\\'", "ends\\"]
 MARK = []
+# a text literal as an argument of a function whose translator builds its code in its own way
+FNARG = ['=ADDRESS(3,7,2,FALSE,"%s")', '=ADDRESS(1,1,4,TRUE,"%s")', '=TEXT(B2,"%s")', '=DATEDIF(B2,B2,"%s")', '=IF(C1=1,"%s","n")', '=IFERROR(1/0,"%s")', '=LEFT("%s",200)',
+         '=CONCATENATE("%s")', '=VLOOKUP("%s",B1:B2,1,FALSE)', '=MATCH("%s",B1:B2,0)', '=SEARCH("%s",B1)', '=VALUE("%s")', '=IFS(C1=1,"%s")', '=MID("%s",1,200)', '=RIGHT("%s",200)']
 
 
 def gen_text(rng):
@@ -50,6 +53,9 @@ def make_case(rc):
     elif kind == 'criterion':
         cells = {'A1': 'x', 'A2': 'y', 'B1': '=COUNTIFS(A1:A2,"%s")' % text}
         uid = '_0_1_0'
+    elif kind == 'fnarg':
+        cells = {'A1': FNARG[rc['fn']] % text, 'B1': 'mid', 'B2': 5, 'C1': 1}
+        uid = '_0_0_0'
     elif kind == 'title_ref':
         cells = {'A1': "='%s'!A1&\"%s\"" % (rc['title'], text), 'B1': 'mid'}
         uid = '_0_0_0'
@@ -97,6 +103,8 @@ def make_case(rc):
                 tree = None      # not loadable: nothing can execute (C06 decides loadability in general)
                 if kind.startswith('concat'):
                     fail = 'the module generated for two joined string literals cannot be loaded (SyntaxError)'
+                elif kind == 'fnarg':
+                    fail = 'the module generated for %s cannot be loaded (SyntaxError): the text argument left its quotes' % (cells['A1'],)
                 elif 'title' in rc:
                     fail = 'the module generated for a workbook whose sheet title is %r cannot be loaded (SyntaxError): the title left its quotes' % (title,)
 
@@ -121,6 +129,8 @@ def make_case(rc):
                             fail = 'the joined literals %r and %r evaluate to %r' % (text, rc['text2'], got)
                         elif kind in ('concat_cell', 'concat_fn_cell') and got != ('ok', text + 'mid' + rc['text2']):
                             fail = 'the joined literals %r, cell, %r (%s) evaluate to %r' % (text, rc['text2'], kind, got)
+                        elif kind == 'fnarg' and rc['fn'] in (4, 5, 6, 7, 12, 13, 14) and got != ('ok', text):
+                            fail = 'the text argument %r of %s comes back as %r' % (text, cells['A1'], got)
                         elif kind == 'title_ref' and got != ('ok', 'v' + text):
                             fail = 'the text literal %r joined to a cell of the sheet titled %r evaluates to %r' % (text, title, got)
                         elif kind != 'title_ref' and list(cls().get_titles()) != [title]:
@@ -132,7 +142,7 @@ def make_case(rc):
         if hasattr(builtins, 'zzcanary'):
             del builtins.zzcanary
     k = 'KConstant' if kind == 'constant' else 'KFormulaText'
-    if kind == 'criterion' or kind.startswith('concat') or kind == 'title_ref':
+    if kind == 'criterion' or kind.startswith('concat') or kind in ('title_ref', 'fnarg'):
         return {'recipe': rc, 'coq': None, 'vcoq': None, 'key': rc, 'nontrivial': True, 'oracle_fail': fail}
     coq = 'CT %s %s %s %s' % (k, C.cstr(text), 'None' if impl is None else '(Some %s)' % C.cstr(impl), C.cbool(fail is None))
     nt = any(ch in text for ch in '\'"\\\n?*')
@@ -149,7 +159,8 @@ def corpus():
           {'kind': 'concat', 'text': 'a', 'text2': "it's"}, {'kind': 'concat', 'text': "it's", 'text2': ' ok'}, {'kind': 'concat', 'text': 'a', 'text2': "'+str(zzcanary(1))+'x'#"},
           {'kind': 'concat_fn', 'text': "x'", 'text2': "'+zzcanary(1)+'"}, {'kind': 'concat_fn_cell', 'text': "{", 'text2': "}"},
           {'kind': 'concat_fn_cell', 'text': "{0.__class__}", 'text2': "%s"}, {'kind': 'concat_cell', 'text': "it's", 'text2': "\\"}, {'kind': 'concat', 'text': '', 'text2': "'"},
-          {'kind': 'title_ref', 'title': '6" pipes', 'text': 'x  y'}, {'kind': 'title_ref', 'title': 'a"b"c"', 'text': ' padded '},
+          {'kind': 'title_ref', 'title': '6" pipes', 'text': 'x  y'}, {'kind': 'fnarg', 'fn': 0, 'text': "O'Brien"}, {'kind': 'fnarg', 'fn': 0, 'text': "+str(zzcanary(1))+''+"},
+          {'kind': 'fnarg', 'fn': 2, 'text': "it's"}, {'kind': 'fnarg', 'fn': 3, 'text': "M'"}, {'kind': 'title_ref', 'title': 'a"b"c"', 'text': ' padded '},
           {'kind': 'criterion', 'text': ">7 or (zzcanary)(1)"}, {'kind': 'criterion', 'text': ">7"}, {'kind': 'criterion', 'text': "x')+zzcanary(1)+('"}]
     rs += [x['witness'] for x in C.known_findings()['findings'] if x['property'] == 'C07']
     return rs
@@ -175,6 +186,9 @@ def run(R, tier):
             rc['text'], rc['text2'] = clean(rc['text']), clean(gen_text(R.rng))
         if R.rng.random() < 0.15:
             rc['title'] = gen_text(R.rng) or 'T'
+        if R.rng.random() < 0.15:
+            # a text literal (no double quote, wildcard or line break) as an argument of one of the functions
+            rc = {'kind': 'fnarg', 'fn': R.rng.randrange(len(FNARG)), 'text': ''.join(ch for ch in gen_text(R.rng) if ch not in '"?*\n') or "it's"}
         if R.rng.random() < 0.08:
             # a title the formula can spell (no apostrophe, ! or line break), possibly with double quotes, and a literal with blanks in it
             t = ''.join(ch for ch in (gen_text(R.rng) or 'T') if ch not in "'!\n\\") or 'T'
